@@ -258,6 +258,8 @@ pub fn configs(tier: Tier) -> Vec<InCfg> {
             let a: Vec<T> = if role == Role::Server { vec![q(1, 1), q(2, 1), T::PubRel(1), q(1, 2)] } else { vec![q(1, 1), q(1, 2)] };
             variants.push((a, if tier == Tier::Quick { 3 } else { 4 }, vec![], vec![GateOutcome::Ok, GateOutcome::Nack(0x80)]));
         }
+        // a duplicate whose payload arrives in pieces: v5 refuses it and carries on, v3 ends the connection
+        variants.push((vec![q(1, 1), T::PubSplit { qos: 1, id: 1, len: 6 }, q(1, 2)], if tier == Tier::Quick { 3 } else { 4 }, vec![], vec![GateOutcome::Ok]));
         for (alphabet, max_len, prologue, outcomes) in variants {
             v.push(InCfg {
                 ep: ep.clone(),
